@@ -116,6 +116,9 @@ def run_property(prop, title, obligations, prog, tier, explanation, assumptions,
         from . import terms as _tm
         _tm.N_MULT = 6
         obligations = list(obligations) + _thorough_obligations(prop, prog, ctx)
+    ids_ = [ob.id for ob in obligations]
+    if len(set(ids_)) != len(ids_):
+        raise RuntimeError(f"duplicate obligation ids in spec {prop}: {sorted(i for i in set(ids_) if ids_.count(i) > 1)}")
     for ob in obligations:
         if ob.tier == "thorough" and tier != "thorough":
             continue
